@@ -20,7 +20,7 @@ theorem hashCallee_reconnect_proof (C : Crypto) (u : NStr) (cd sd K : Bytes) :
 theorem C05_linked_verify_reconnection_attempt (C : Crypto) (be : Backend) (s : SrpServer) (cd proof draw : Bytes) (rest : List Bytes) :
     Gen.CodeApi.verifyReconnectionAttempt.run (reconnectLinkedPrims C be) (selfServer s) [.bytes cd, .bytes proof] (draw :: rest)
       = some (.ok (.bool (s.verifyReconnectionAttempt C cd proof draw).1, selfServer (s.verifyReconnectionAttempt C cd proof draw).2, rest)) := by
-  simp [Gen.CodeApi.verifyReconnectionAttempt, ApiFn.run, runBody, Rhs.eval, Ret.eval, atomsVal, fieldsVal, Atom.val, lookup, bindVar, setField,
+  simp [Gen.CodeApi.verifyReconnectionAttempt, ApiFn.run, runBody, Rhs.eval, drawKinds, Ret.eval, atomsVal, fieldsVal, Atom.val, lookup, bindVar, setField,
     reconnectLinkedPrims, hashCallee_reconnect_proof, selfServer, eqVal, SrpServer.verifyReconnectionAttempt, Out.bind, bind]
 
 #print axioms C05_linked_verify_reconnection_attempt
